@@ -1110,6 +1110,12 @@ fn c06_single<T: ZooType>(ctx: &mut ZooCtx, u: &Universe, e: &TypeEntry) {
                 Ok(Err(err)) => {
                     let kind = kind_name(&err);
                     if viol.extensible {
+                        // freshly generated list elements may be of a type whose every value asn1rs refuses (recorded C02 class)
+                        let fs = feature_sig(u, e, &v);
+                        if let Some(why) = recorded_refusal(ctx, u, e, &v, &fs, &kind) {
+                            ctx.rep.hist("outcomes", &format!("masked-by-{}", why));
+                            continue;
+                        }
                         ctx.rep.violation(&format!("c06:{}:extensible-constraint-but-writer-refuses:{}", viol.what, kind), wj(json!({"error": format!("{}", err)})));
                     } else if !["ValueNotInRange", "SizeNotInRange", "InvalidString", "InvalidChoiceIndex"].contains(&kind.as_str()) {
                         ctx.rep.violation(&format!("c06:{}:rejected-with-unexpected-error:{}", viol.what, kind), wj(json!({"error": format!("{}", err)})));
@@ -1961,6 +1967,12 @@ fn c17_single<T: ZooType>(ctx: &mut ZooCtx, u: &Universe, e: &TypeEntry) {
             None => continue,
         };
         let wj = |extra: Value| wit(u, e, &v, json!({"schema_features": pfs, "detail": extra}));
+        // parts of the value asn1rs's mapping has no protobuf representation for (recorded findings)
+        let vfs = {
+            let mut vf = BTreeSet::new();
+            proto_value_features(u, e.module, &ty, &v, &mut vf, 0);
+            vf.iter().copied().collect::<Vec<_>>().join("+")
+        };
         // --- growable back end
         let mut w1 = ProtobufWriter::default();
         let bytes = match guarded(|| w1.write(&t)) {
@@ -2014,17 +2026,19 @@ fn c17_single<T: ZooType>(ctx: &mut ZooCtx, u: &Universe, e: &TypeEntry) {
         match back {
             Err(p) => ctx.rep.violation(&format!("c17:read:{}", p.signature()), wj(json!({"protobuf": hex(&bytes).chars().take(200).collect::<String>()}))),
             Ok(Err(k)) => {
-                let mut vf = BTreeSet::new();
-                proto_value_features(u, e.module, &ty, &v, &mut vf, 0);
-                let vfs = vf.iter().copied().collect::<Vec<_>>().join("+");
-                ctx.rep.violation(&format!("c17:own-bytes-rejected:{}:{}", k, vfs), wj(json!({"protobuf": hex(&bytes).chars().take(200).collect::<String>()})))
+                if vfs.is_empty() {
+                    ctx.rep.violation(&format!("c17:own-bytes-rejected:{}:", k), wj(json!({"protobuf": hex(&bytes).chars().take(200).collect::<String>()})))
+                } else {
+                    ctx.rep.violation(&format!("c17:no-protobuf-representation:{}:own-bytes-rejected", vfs), wj(json!({"error": k, "protobuf": hex(&bytes).chars().take(200).collect::<String>()})))
+                }
             }
             Ok(Ok(t2)) => match guarded(|| Extractor::extract(u, ctx.set_order, e.module, &e.def, &t2)) {
                 Ok(Ok(v2)) => match proto_eq(u, e.module, &ty, &v, &v2, 0) {
                     None => {
                         ctx.rep.hist("outcomes", if v2 == v { "identical" } else { "protobuf-equal" });
                     }
-                    Some(d) => ctx.rep.violation(&format!("c17:round-trip-differs:{}", d), wj(json!({"protobuf": hex(&bytes).chars().take(200).collect::<String>(), "read_back": v2.short()}))),
+                    Some(d) if vfs.is_empty() => ctx.rep.violation(&format!("c17:round-trip-differs:{}", d), wj(json!({"protobuf": hex(&bytes).chars().take(200).collect::<String>(), "read_back": v2.short()}))),
+                    Some(d) => ctx.rep.violation(&format!("c17:no-protobuf-representation:{}:round-trip-differs", vfs), wj(json!({"difference": d, "protobuf": hex(&bytes).chars().take(200).collect::<String>(), "read_back": v2.short()}))),
                 },
                 _ => ctx.rep.violation("c17:extractor-failed-on-read-value", wj(json!(null))),
             },
@@ -2181,7 +2195,11 @@ fn c18_single<T: ZooType>(ctx: &mut ZooCtx, u: &Universe, e: &TypeEntry) {
                 let mut vf = BTreeSet::new();
                 proto_value_features(u, e.module, &ty, &v, &mut vf, 0);
                 // classes carry no variable parts except the component counts of shape mismatches
-                let class: String = if d.starts_with("message-shape") { d.split(':').take(2).collect::<Vec<_>>().join(":") } else { d.clone() };
+                let mut core: &str = &d;
+                while let Some(rest) = core.strip_prefix("list>") {
+                    core = rest; // the same mismatch inside list elements is the same mismatch
+                }
+                let class: String = if core.starts_with("message-shape") { core.split(':').take(2).collect::<Vec<_>>().join(":") } else { core.to_string() };
                 ctx.rep.violation(
                     &format!("c18:bytes-vs-schema:{}", class),
                     wit(u, e, &v, json!({"protobuf": hex(&bytes).chars().take(300).collect::<String>(), "mismatch": d, "value_features": vf.iter().collect::<Vec<_>>(), "proto": set.texts})),
